@@ -1,7 +1,7 @@
 """Statement execution, loops (invariant rule / for-each rule), try/with."""
 import ast
 import z3
-from .core import (Val, VNone, VTrue, VFalse, VInt, VStr, VBool, VRef, I, B, ArrIV, ArrVB, ArrVV, Unsupported, PathAbort,
+from .core import (tkey, Val, VNone, VTrue, VFalse, VInt, VStr, VBool, VRef, I, B, ArrIV, ArrVB, ArrVV, Unsupported, PathAbort,
                    FuncObj, ClassObj, ModuleObj, ExternObj, Frame, TYPEBASE)
 from .front import mangle
 from .interp_base import PyRaise, ReturnEx, BreakEx, ContinueEx
@@ -737,7 +737,7 @@ class StmtMixin:
         r = Val.r(it)
         if nm in ("list", "tuple", "deque", "set", "frozenset"):
             arr = self.lel(r)
-            esort = self.st.ghost.get("elem_sorts", {}).get(str(z3.simplify(it)))
+            esort = self.st.ghost.get("elem_sorts", {}).get(tkey(it))
             if esort is not None:
                 interp = self
 
@@ -780,7 +780,7 @@ class StmtMixin:
             if hostdata:
                 interp.assume_shape(z3.Select(val, k), ANY_SORT)
             dvs_ = interp.st.ghost.get("dict_value_sorts", {})
-            vs_ = dvs_.get(str(z3.simplify(VRef(r)))) or dvs_.get("r:" + str(z3.simplify(r)))
+            vs_ = dvs_.get(tkey(VRef(r))) or dvs_.get("r:" + tkey(r))
             if vs_ is not None and getattr(vs_, "kind", None) == "obj":
                 # declared typing of the dictionary's values applies to the values met while iterating over it
                 t_ = interp.table
